@@ -171,6 +171,16 @@ def either(ctx, legacy, canonical, note="accepted in canonical form (equivalent 
     canonical outcomes.  The instance holds if either formulation holds; if both fail the legacy report (whose keys the
     catalogue and known findings refer to) is committed, followed by the canonical one."""
     from .run import AnchorMissing
+    import os
+    if os.environ.get("UEC_EITHER") == "second":
+        # self-test mode: judge by the second formulation alone (is it, on its own, as strict as the first?)
+        t2 = Trial(ctx)
+        try:
+            canonical(t2)
+        except AnchorMissing:
+            pass
+        t2.commit(note)
+        return not t2.failed()
     t1 = Trial(ctx)
     try:
         legacy(t1)
